@@ -284,7 +284,12 @@ def check_mass(desc):
     # pairings such as <f, n x f> vanish identically: the floor is 1e-4 of the Cauchy-Schwarz bound, not of the (zero) matrix itself
     scale = max(np.max(np.abs(R)), 1e-4 * np.sqrt(max(np.max(Gt), 1e-300) * max(np.max(Gd), 1e-300)), 1e-300)
     err = np.max(np.abs(A - R)) / scale
-    if A.shape != R.shape or err > 1e-10:
+    # conditioning of the geometry: coordinates of size |x| on elements of size h carry a relative error eps |x| / h (a 1e-3-sized,
+    # repeatedly split strip translated by 0.5: |x| / h ~ 5e3)
+    Vg = np.asarray(g.vertices)
+    hmin = float(np.sqrt(np.min(np.asarray(bg.volumes))))
+    tol_m = 1e-10 + 2e-13 * float(np.max(np.abs(Vg))) / max(hmin, 1e-300)
+    if A.shape != R.shape or err > tol_m:
         i, j = np.unravel_index(np.argmax(np.abs(A - R)), A.shape)
         _fail(f"mass/{sdt['kind']}_x_{sdd['kind']}", f"identity({sdd['kind']},.,{sdt['kind']}): entry ({i},{j}) = {A[i, j]:.10g}, exact integral "
               f"{R[i, j]:.10g} (max rel diff {err:.2e})")
